@@ -42,11 +42,12 @@ Definition mfold (c : N) : N := if c <? 256 then tbl_get c am_tolower_tbl c else
 
 Record meth : Type := mkMeth { m_id : N; m_image : bytes }.   (* theMethod, theImage *)
 
-(* image().caseCmp(begin, end-begin) == 0 in HttpRequestMethodXXX(): SBuf::compare(const char *, n)
-   scans min(length(), n) bytes and reports a difference in length only when the SBuf is the SHORTER
-   side, so a token that is a (case-insensitive) prefix of the image compares equal *)
+(* image().length() == end-begin && image().caseCmp(begin, end-begin) == 0 in HttpRequestMethodXXX()
+   (since /repo ae7c270): SBuf::compare(const char *, n) scans min(length(), n) bytes and reports a difference
+   in length only when the SBuf is the SHORTER side, which is why the length is compared first; before that
+   repair a token that was a (case-insensitive) prefix of the image compared equal ("GE" was GET) *)
 Definition cfg_image_eq (image tok : bytes) : bool :=
-  (lenN tok <=? lenN image) && list_eqb (map mfold (takeN (lenN tok) image)) (map mfold tok).
+  (lenN tok =? lenN image) && list_eqb (map mfold (takeN (lenN tok) image)) (map mfold tok).
 
 (* image().caseCmp(s) == 0 in HttpRequestMethod(const SBuf &): SBuf against SBuf, lengths compared *)
 Definition req_image_eq (image tok : bytes) : bool :=
